@@ -76,3 +76,74 @@ func VerifC04PowerCap() {
 	vh.Assert(vh.Implies(achievable, order), "C04.cap.order-preserved")
 	vh.Assert(vh.Implies(!achievable, allEq), "C04.cap.unachievable-all-equal")
 }
+
+// VerifC04SetCap: validator-set cap and priority list inside the full
+// computation (ComputeNextValidators) for an opt-in consumer: the result is a
+// set of min(k, #eligible) eligible validators, and no excluded eligible
+// validator strictly outranks an included one (priority-listed first, then
+// descending voting power).  With Top-N > 0 the cap is a no-op.
+func VerifC04SetCap() {
+	nv := vh.Bound("vals", 3)
+	cid := "1"
+	e := newVEnv(nv)
+	e.k.SetParams(e.ctx, vParams(100, 600))
+	vStakingContract(e.st)
+	opted := make([]bool, nv)
+	prio := make([]bool, nv)
+	for i := 0; i < nv; i++ {
+		pa := types.NewProviderConsAddress(vConsAddr(i))
+		opted[i] = vh.Bool(vh.Sprintf("opted%d", i))
+		if vh.Guard(opted[i]) {
+			e.k.SetOptedIn(e.ctx, cid, pa)
+		}
+		vh.EndGuard()
+		prio[i] = vh.Bool(vh.Sprintf("prio%d", i))
+		if vh.Guard(prio[i]) {
+			e.k.SetPrioritylist(e.ctx, cid, pa)
+		}
+		vh.EndGuard()
+	}
+	capK := vh.Uint32("cap")
+	vh.Assume(capK <= uint32(nv)+1)
+	topN := vh.Uint32("topN")
+	vh.Assume(vh.Or(topN == 0, vh.And(topN >= 50, topN <= 100)))
+	minPower := vh.Int64("minPower")
+	vh.Assume(minPower >= 0)
+	psp := types.PowerShapingParameters{Top_N: topN, ValidatorSetCap: capK, AllowInactiveVals: true}
+	bonded, err := e.st.GetBondedValidatorsByPower(e.ctx)
+	vh.Assert(err == nil, "C04.setcap.setup")
+	next, err := e.k.ComputeNextValidators(e.ctx, cid, bonded, psp, minPower)
+	vh.Reach("after-compute")
+	vh.Assert(err == nil, "C04.setcap.no-error")
+
+	eligible := make([]bool, nv)
+	nEligible := int64(0)
+	for i := 0; i < nv; i++ {
+		eligible[i] = vh.And(e.st.isActive(i), vh.Or(opted[i], vh.And(topN > 0, e.st.power[i] >= minPower)))
+		nEligible += vh.IteInt64(eligible[i], 1, 0)
+	}
+	got := make([]bool, nv)
+	for _, v := range next {
+		i := e.st.idxByCons(v.ProviderConsAddr)
+		vh.Assert(i >= 0, "C04.setcap.member-is-known-validator")
+		vh.Assert(!got[i], "C04.setcap.no-duplicates")
+		got[i] = true
+		vh.Assert(eligible[i], "C04.setcap.member-eligible")
+		vh.Assert(v.Power == e.st.power[i], "C04.setcap.power-unchanged")
+	}
+	capped := vh.And(topN == 0, vh.And(capK > 0, int64(capK) < nEligible))
+	want := vh.IteInt64(capped, int64(capK), nEligible)
+	vh.Show("nEligible", nEligible)
+	vh.Show("len", int64(len(next)))
+	vh.Assert(int64(len(next)) == want, "C04.setcap.size-is-min-of-cap-and-eligible")
+	for x := 0; x < nv; x++ {
+		for i := 0; i < nv; i++ {
+			if x == i {
+				continue
+			}
+			outranks := vh.Or(vh.And(prio[x], !prio[i]), vh.And(prio[x] == prio[i], e.st.power[x] > e.st.power[i]))
+			bad := vh.And(vh.And(eligible[x], !got[x]), vh.And(got[i], outranks))
+			vh.Assert(!bad, "C04.setcap.no-excluded-validator-outranks-an-included-one")
+		}
+	}
+}
